@@ -309,3 +309,91 @@ def _worker(st, ctx):
         if fid < 0.99:
             f.append(("mle_fidelity", "MLE process fidelity against choi_from_unitary(V) is %.4f (program %s)" % (fid, gs)))
     return res
+
+
+# ---------------------------------------------------------------- continuous unitaries (evaluator side of C16)
+def _haar(rng, d):
+    Z = (rng.normal(size=(d, d)) + 1j * rng.normal(size=(d, d))) / math.sqrt(2)
+    Q, R = np.linalg.qr(Z)
+    return Q * (np.diag(R) / np.abs(np.diag(R)))
+
+
+def choi_def(V):
+    """|V>><<V| with |V>> = sum_i |i> (x) V|i>  (LwTomo!VecCol, the convention TLC pins to the experiments)"""
+    d = V.shape[0]
+    v = np.array([V[x % d, x // d] for x in range(d * d)])
+    return np.outer(v, v.conj())
+
+
+def continuous_case(args):
+    """one Haar-random process: 1 qubit = one arbitrary unitary; 2 qubits = (U3 x U4) . E . (U1 x U2), E in {CZ, CNOT(0), CNOT(1), SWAP}"""
+    nq, k, what = args
+    from ..common import library_raised
+    try:
+        return _continuous_case(nq, k, what)
+    except Exception as e:  # noqa: BLE001
+        if not library_raised(e):
+            raise
+        return {"findings": [("raised", "%s: %s" % (type(e).__name__, e))], "case": (nq, k)}
+
+
+def _continuous_case(nq, k, what):
+    import lightworks as lw
+    from lightworks import qubit, tomography as tm
+    rng = np.random.default_rng(100003 * nq + k)
+    f = []
+    if nq == 1:
+        V = _haar(rng, 2)
+        base = lw.Circuit(2)
+        base.add(lw.Unitary(V.copy()), 0)
+        desc = "Haar-random single-qubit unitary #%d" % k
+    else:
+        Us = [_haar(rng, 2) for _ in range(4)]
+        ent = ["CZ", "CNOT0", "CNOT1", "SWAP"][k % 4]
+        # qubit.CNOT(t): t is the TARGET qubit (qubit 0 = most significant bit)
+        E = {"CZ": np.diag([1, 1, 1, -1]), "CNOT1": np.array([[1, 0, 0, 0], [0, 1, 0, 0], [0, 0, 0, 1], [0, 0, 1, 0]]),
+             "CNOT0": np.array([[1, 0, 0, 0], [0, 0, 0, 1], [0, 0, 1, 0], [0, 1, 0, 0]]), "SWAP": np.array([[1, 0, 0, 0], [0, 0, 1, 0], [0, 1, 0, 0], [0, 0, 0, 1]])}[ent].astype(complex)
+        V = np.kron(Us[2], Us[3]) @ E @ np.kron(Us[0], Us[1])
+        base = lw.Circuit(4)
+        base.add(lw.Unitary(Us[0].copy()), 0)
+        base.add(lw.Unitary(Us[1].copy()), 2)
+        base.add({"CZ": qubit.CZ(), "CNOT0": qubit.CNOT(0), "CNOT1": qubit.CNOT(1), "SWAP": qubit.SWAP((0, 1), (2, 3))}[ent], 0)
+        base.add(lw.Unitary(Us[2].copy()), 0)
+        base.add(lw.Unitary(Us[3].copy()), 2)
+        desc = "(U3 x U4) . %s . (U1 x U2), Haar-random #%d" % (ent, k)
+    d = 2 ** nq
+    Jx = choi_def(V)
+    Jref = tm.choi_from_unitary(V)
+    s0 = snap(base)
+    if np.abs(Jref - Jx).max() > 1e-9:
+        f.append(("choi_reference", "choi_from_unitary(V) differs from the Choi matrix the tomography measures by %.3g (%s)" % (np.abs(Jref - Jx).max(), desc)))
+    if "li" in what:
+        t = tm.LIProcessTomography(nq, base, Experiment(k).process)
+        J = t.process()
+        if np.abs(J - Jx).max() > 1e-7:
+            f.append(("li_choi", "linear-inversion Choi matrix differs from the experiments' Choi matrix by %.3g (%s)" % (np.abs(J - Jx).max(), desc)))
+        fid = t.fidelity(Jref)
+        if not np.isfinite(fid) or abs(fid - 1) > 1e-5:
+            f.append(("li_fidelity", "LI process fidelity against choi_from_unitary(V) is %r (%s)" % (fid, desc)))
+    if "gf" in what:
+        g = tm.GateFidelity(nq, base, Experiment(k).process)
+        W = _haar(rng, d)
+        for target, name in ((V, "V"), (W, "a Haar-random target"), (np.exp(0.7j) * V, "V times a global phase")):
+            got = g.process(target)
+            exp = (abs(np.trace(target.conj().T @ V)) ** 2 + d) / (d * (d + 1))
+            if abs(got - exp) > 1e-7:
+                f.append(("gate_fidelity", "gate fidelity %.8f, formula value %.8f (target %s; %s)" % (got, exp, name, desc)))
+    if "mle" in what:
+        t = tm.MLEProcessTomography(nq, base, Experiment(k).process)
+        J = t.process()
+        ev_min = np.linalg.eigvalsh((J + J.conj().T) / 2).min()
+        if ev_min < -1e-8:
+            f.append(("mle_positive", "MLE Choi matrix has eigenvalue %.3g (%s)" % (ev_min, desc)))
+        if np.abs(ptrace_out(J, d) - np.eye(d)).max() > 5e-3:
+            f.append(("mle_tp", "MLE Choi matrix is not trace preserving (dev %.3g; %s)" % (np.abs(ptrace_out(J, d) - np.eye(d)).max(), desc)))
+        fid = t.fidelity(Jref)
+        if not (fid >= 0.99):
+            f.append(("mle_fidelity", "MLE process fidelity against choi_from_unitary(V) is %.4f (%s)" % (fid, desc)))
+    if snap(base) != s0:
+        f.append(("base_changed", "process tomography changed the base circuit (%s)" % desc))
+    return {"findings": f, "case": (nq, k), "desc": desc, "V": [[repr(complex(x)) for x in row] for row in V]}
